@@ -12,6 +12,8 @@ CONSTANTS
   Prices <- TracePrices
   Modes = {"fresh", "catchup"}
   Kinds = {"closed", "lost", "won", "other", "xclosed", "created", "xowner", "xownerp", "xdseq"}
+  ErrKinds = {1, 2, 3, 4}
+  NfKinds = {1, 2, 3}
   TimeoutCfgs = {TRUE, FALSE}
 
 POSTCONDITION CAccepted
